@@ -43,6 +43,12 @@ PALETTE = [
     ["p7", "black", "light gray", None, "", "g85"],
     ["p8", "white", "dark blue", "bold", "#f80", ""],
 ]
+# the palette entry None is what unstyled cells are painted with: an application may register its own (a global colour scheme)
+NONE_ENTRIES = [
+    [None, "white", "dark blue", "bold", "#ff0", "#008"],
+    [None, "black", "light gray", None, None, None],
+    [None, "yellow,underline", "default", "underline", "g50", ""],
+]
 SPEC_ATTRS = [
     ["light green", "dark magenta", 16],
     ["#f0f,bold", "#010", 256],
@@ -229,7 +235,7 @@ class _Run:
 
         if name == "alias":
             name = "p1"
-        for p in PALETTE:
+        for p in self.pal:
             if p[0] == name:
                 _, fg, bg, mono, fgh, bgh = p
                 c = self.colors
@@ -244,7 +250,7 @@ class _Run:
         """(foreground, background, depth) descriptions of a palette entry at the active colour depth."""
         if name == "alias":
             name = "p1"
-        for p in PALETTE:
+        for p in self.pal:
             if p[0] == name:
                 _, fg, bg, mono, fgh, bgh = p
                 c = self.colors
@@ -258,7 +264,7 @@ class _Run:
     def resolve(self, key) -> Attr:
         from urwid.display.common import AttrSpec  # noqa: PLC0415
 
-        if key is None or key == "undefined-name":
+        if (key is None and len(self.pal) == len(PALETTE)) or key == "undefined-name":
             spec = AttrSpec("default", "default")
         elif isinstance(key, (tuple, list)):
             fg, bg, c = SPEC_ATTRS[key[1]]
@@ -389,6 +395,9 @@ class _Run:
         W.activate(w)
         self.enc = cfg["enc"]
         self.colors = cfg["colors"]
+        self.pal = PALETTE + ([NONE_ENTRIES[cfg["none_entry"]]] if cfg.get("none_entry") is not None else [])
+        if cfg.get("none_entry") is not None:
+            res.probe("palette_entry_none_registered")
         old_handlers = {s: signal.getsignal(s) for s in (signal.SIGWINCH, signal.SIGTSTP, signal.SIGCONT)}
         urwid.util.set_encoding(ENC[self.enc])
         try:
@@ -404,7 +413,7 @@ class _Run:
             screen.fg_bright_is_bold = cfg.get("bright_is_bold", False)
             screen.bg_bright_is_blink = cfg.get("bright_is_blink", False)
             screen.set_terminal_properties(colors=self.colors, bright_is_bold=cfg.get("bright_is_bold", False))
-            for p in PALETTE:
+            for p in self.pal:
                 screen.register_palette_entry(*p)
             screen.register_palette([("alias", "p1")])
             w.log.add("cfg", [self.enc, self.colors, cols, rows, cfg.get("bce", True), cfg.get("bright_is_bold", False), cfg.get("bright_is_blink", False)])
@@ -549,7 +558,7 @@ class _Run:
         HtmlGenerator.started = True
         g = HtmlGenerator()
         g.set_terminal_properties(colors=self.colors)
-        for p in PALETTE:
+        for p in self.pal:
             g.register_palette_entry(*p)
         g.register_palette([("alias", "p1")])
         HtmlGenerator.sizes = [tuple(size)]
@@ -669,7 +678,7 @@ class DisplayEngine(Engine):
         "real": ["_posix_raw_display.Screen / _raw_display_base.Screen.draw_screen, _last_row, _attrspec_to_escape, clear, set_terminal_properties", "escape constants", "AttrSpec", "TextCanvas/CompositeCanvas", "HtmlGenerator"],
         "stub": ["tty (fake fd, TIOCGWINSZ)", "resize socket pair", "signal delivery (handler called at scheduled write)", "terminal (RefTerm)"],
     }
-    required_probes = ("frame_compared_incremental", "frame_compared_after-resize", "frame_skipped_resize_pending", "frame_drawn_with_stale_size")
+    required_probes = ("frame_compared_incremental", "frame_compared_after-resize", "frame_skipped_resize_pending", "frame_drawn_with_stale_size", "palette_entry_none_registered")
     reducible = ("ops",)
     _ctl = False
 
@@ -752,6 +761,8 @@ class DisplayEngine(Engine):
             "bright_is_blink": rng.random() < 0.3,
             "outbuf": rng.choice([0, 0, 64, 1 << 16]),
         }
+        if rng.random() < 0.2:
+            cfg["none_entry"] = rng.randrange(len(NONE_ENTRIES))
         ops = []
         prev = None
         n = rng.randint(1, 12)
